@@ -25,6 +25,7 @@
    "invalid"). *)
 From Lib Require Import Bytes Cid.
 From Model Require Import C13_DagCbor.
+From Gen Require Import Gen_Consts.
 From Coq Require Import String Ascii ZArith.
 Open Scope N_scope.
 
@@ -219,6 +220,15 @@ Definition wf_chunk (c : chunk) : bool :=
   forallb str_ok (c_entries c) && len_ok (c_entries c) && match c_next c with Some l => link_ok l | None => true end.
 
 (* ---------------------------------------------------------------- *)
+(* Advertisement.Validate (types.go L103): only the two length limits, taken from the
+   constants astgen reads out of schema.go (gen/Gen_Consts.v).  Nothing in the package
+   calls it: ToNode, the encoders, BytesToAdvertisement and Unwrap* neither require nor
+   establish it.  Family validate. *)
+Definition validate (a : ad) : bool :=
+  (Z.of_N (blen (a_ctx a)) <=? schema_MaxContextIDLen)%Z &&
+  (Z.of_N (blen (a_meta a)) <=? schema_MaxMetadataLen)%Z.
+
+(* ---------------------------------------------------------------- *)
 (* equality, case checkers                                            *)
 
 Definition lbytes_eqb := list_eqb bytes_eqb.
@@ -285,3 +295,6 @@ Definition dec_case_ok (c : bytes * bool * option bytes * res ad * res chunk) : 
 Definition node_case_ok (c : node * bytes) : bool :=
   let '(n, b) := c in
   bytes_eqb (encode n) b && res_match node_eqb (decode b) (Ok (norm n)).
+
+(* family validate: (value, Validate() == nil) *)
+Definition validate_case_ok (c : ad * bool) : bool := Bool.eqb (validate (fst c)) (snd c).
